@@ -16,7 +16,8 @@ import Bng.Proof.XdpDhcpEnd
                                                                   `tx_type_partial`, `KF_opt53_fixed_witness`
     KF-srvcfg-unset server_config never written                 → hypothesis `S ≠ 0` of `tx_agrees_partial`, `KF_srvcfg_unset_witness`
     KF-fastpath-reqaddr / KF-cid-foreign-mac: WHICH lease a request is answered from (requested address ignored,
-      circuit-id before MAC) — outside the theorems below, which speak about the entry that was hit; judged by the
+      `KF_fastpath_reqaddr_witness`; circuit-id before MAC, `KF_cid_foreign_mac_witness`)
+      — outside the agreement theorems below, which speak about the entry that was hit; judged by the
       monitors against the real slow path.
 -/
 namespace Bng.Spec.C03
